@@ -182,6 +182,17 @@ def _guard_style(tree):
         i = 0
         while i < len(out):
             st = out[i]
+            if isinstance(st, ast.If) and _is_chain(st) and os.environ.get("VERIF_NOCHAINFLAT") != "1":
+                # an elif chain whose first arm leaves the block: the rest of the chain is what follows the guard
+                if not getattr(st, "_elif", False) and st.orelse and _terminates(st.body):
+                    rest = st.orelse
+                    st.orelse = []
+                    for r_ in rest:
+                        if isinstance(r_, ast.If):
+                            r_._elif = False
+                    out[i + 1:i + 1] = rest
+                    i += 1
+                    continue
             if isinstance(st, ast.If) and not _is_chain(st):
                 if st.orelse:
                     tb, te = _terminates(st.body), _terminates(st.orelse)
@@ -217,6 +228,7 @@ def _guard_style(tree):
 
 def canonicalise(tree):
     tree = _Canon().visit(tree)
+    _fold_return_temps(tree)                 # before the guard style: the sizes of the arms it compares must not depend on temporaries
     if os.environ.get("VERIF_NOGUARD") != "1":
         _guard_style(tree)
     _split_parallel_assignments(tree)
